@@ -3781,7 +3781,8 @@ func (c *amd64Compiler) compileFillLoopImpl(destinationOffset, value, fillSize *
 	emptyEightGroupsJump := c.assembler.CompileJump(amd64.JEQ)
 
 	if replicateByte {
-		// Replicate single byte onto full 8-byte register.
+		// Replicate single byte onto full 8-byte register (memory.fill uses only the low byte of the value).
+		c.assembler.CompileConstToRegister(amd64.ANDQ, 0xff, value.register)
 		c.assembler.CompileConstToRegister(amd64.MOVQ, 0x0101010101010101, tmp)
 		c.assembler.CompileRegisterToRegister(amd64.IMULQ, tmp, value.register)
 	}
